@@ -1,7 +1,7 @@
 """C15 - every parse tree or derivation handed out is a real derivation of the given word."""
 import weakref
 
-from vf import core
+from vf import core, values
 from vf.gen import cfg as gcfg
 from vf.props.cfgcommon import ref_of, word_values
 from vf.props.trees import validate_tree, validate_derivation, node_sym
@@ -382,7 +382,7 @@ def run_fcfg(c, stats):
     trees = []
     with core.case(c, fcfg_tree_tags(c)):
         for w in itertools.chain.from_iterable(itertools.product("ab", repeat=k) for k in range(N + 1)):
-            ok, t = call(g.get_parse_tree, list(w))
+            ok, t = call(g.get_parse_tree, values.word_form(w, len(w)))
             if ok:
                 trees.append(t)
         for t in trees[:20]:
@@ -418,15 +418,15 @@ def run_case(c, stats):
     words += [w for w in L if len(w) == 4][:6]
     trees = []
     if "cnf" in c["parsers"]:
-        for w in words:
-            ok, t = call(g.get_cnf_parse_tree, list(w))
+        for i, w in enumerate(words):
+            ok, t = call(g.get_cnf_parse_tree, values.word_form(w, i))
             if ok:
                 trees.append(t)
     if "ll1" in c["parsers"]:
         ok, p = call(LLOneParser, g)
         if ok:
-            for w in words:
-                ok, t = call(p.get_llone_parse_tree, list(w))
+            for i, w in enumerate(words):
+                ok, t = call(p.get_llone_parse_tree, values.word_form(w, i + 1))
                 if ok:
                     trees.append(t)
     if "rd" in c["parsers"]:
@@ -438,7 +438,7 @@ def run_case(c, stats):
                 for left in (True, False):
                     try:
                         with core.step_budget(budget):
-                            ok, t = call(p.get_parse_tree, list(w), left)
+                            ok, t = call(p.get_parse_tree, values.word_form(w, len(w) + left), left)
                     except core.StepBudgetExceeded:
                         core.LOG.depth = 0
                         core.LOG.count("C15.rd_budget_overrun")
